@@ -4,10 +4,10 @@
 
 // failed check (?): 
 #[test]
-fn kani_concrete_playback_pred_1554350721992425581() {
+fn kani_concrete_playback_pred_12334569768666922671() {
     let concrete_vals: Vec<Vec<u8>> = vec![
-        // 2ul
-        vec![2, 0, 0, 0, 0, 0, 0, 0],
+        // 0ul
+        vec![0, 0, 0, 0, 0, 0, 0, 0],
         // 3ul
         vec![3, 0, 0, 0, 0, 0, 0, 0],
         // 3ul
@@ -18,8 +18,8 @@ fn kani_concrete_playback_pred_1554350721992425581() {
         vec![3, 0, 0, 0, 0, 0, 0, 0],
         // 1
         vec![1],
-        // 2ul
-        vec![2, 0, 0, 0, 0, 0, 0, 0],
+        // 0ul
+        vec![0, 0, 0, 0, 0, 0, 0, 0],
         // 7ul
         vec![7, 0, 0, 0, 0, 0, 0, 0],
     ];
@@ -28,7 +28,7 @@ fn kani_concrete_playback_pred_1554350721992425581() {
 
 // failed check (?): 
 #[test]
-fn kani_concrete_playback_pred_18355787219607074787() {
+fn kani_concrete_playback_pred_3916045496714190626() {
     let concrete_vals: Vec<Vec<u8>> = vec![
         // 0ul
         vec![0, 0, 0, 0, 0, 0, 0, 0],
@@ -36,8 +36,32 @@ fn kani_concrete_playback_pred_18355787219607074787() {
         vec![0, 0, 0, 0, 0, 0, 0, 0],
         // 0ul
         vec![0, 0, 0, 0, 0, 0, 0, 0],
+        // 1ul
+        vec![1, 0, 0, 0, 0, 0, 0, 0],
         // 0ul
         vec![0, 0, 0, 0, 0, 0, 0, 0],
+        // 0
+        vec![0],
+        // 0ul
+        vec![0, 0, 0, 0, 0, 0, 0, 0],
+        // 3ul
+        vec![3, 0, 0, 0, 0, 0, 0, 0],
+    ];
+    kani::concrete_playback_run(concrete_vals, crate::c04::q::n4_u3::pred);
+}
+
+// failed check (?): 
+#[test]
+fn kani_concrete_playback_pred_13032335947125525813() {
+    let concrete_vals: Vec<Vec<u8>> = vec![
+        // 0ul
+        vec![0, 0, 0, 0, 0, 0, 0, 0],
+        // 1ul
+        vec![1, 0, 0, 0, 0, 0, 0, 0],
+        // 3ul
+        vec![3, 0, 0, 0, 0, 0, 0, 0],
+        // 3ul
+        vec![3, 0, 0, 0, 0, 0, 0, 0],
         // 0ul
         vec![0, 0, 0, 0, 0, 0, 0, 0],
         // 1
@@ -50,22 +74,24 @@ fn kani_concrete_playback_pred_18355787219607074787() {
 
 // failed check (?): 
 #[test]
-fn kani_concrete_playback_pred_14026572446300400206() {
+fn kani_concrete_playback_pred_8362638880282524242() {
     let concrete_vals: Vec<Vec<u8>> = vec![
         // 0ul
         vec![0, 0, 0, 0, 0, 0, 0, 0],
         // 0ul
         vec![0, 0, 0, 0, 0, 0, 0, 0],
-        // 2ul
-        vec![2, 0, 0, 0, 0, 0, 0, 0],
-        // 3ul
-        vec![3, 0, 0, 0, 0, 0, 0, 0],
-        // 8ul
-        vec![8, 0, 0, 0, 0, 0, 0, 0],
-        // 1
-        vec![1],
         // 0ul
         vec![0, 0, 0, 0, 0, 0, 0, 0],
+        // 0ul
+        vec![0, 0, 0, 0, 0, 0, 0, 0],
+        // 1027ul
+        vec![3, 4, 0, 0, 0, 0, 0, 0],
+        // 0
+        vec![0],
+        // 0ul
+        vec![0, 0, 0, 0, 0, 0, 0, 0],
+        // 7ul
+        vec![7, 0, 0, 0, 0, 0, 0, 0],
     ];
     kani::concrete_playback_run(concrete_vals, crate::c04::q::n4_u3::pred);
 }
